@@ -23,8 +23,10 @@ def simplify[T: Base](expr: T) -> T:
     if expr.is_leaf():
         return expr
 
-    if expr.hash() in simplification_cache and simplification_cache[expr.hash()] is not None:
-        return cast("T", simplification_cache[expr.hash()])
+    # (one lookup: the entry is a weak reference that another thread's collection can remove between two lookups)
+    cached = simplification_cache.get(expr.hash())
+    if cached is not None:
+        return cast("T", cached)
 
     try:
         simplified = claripy.backends.any_backend.simplify(expr)
